@@ -339,6 +339,13 @@ class SdkRun:
             if explicit == "lowest-free":
                 # the caller names a register it knows to be free (here: the lowest free one)
                 kw["loop_register"] = str(conn.builder._mem_mgr.get_inactive_register())
+            elif explicit and explicit.startswith("free:"):
+                # ... or any other register it knows to be free (the k-th free one)
+                from netqasm.lang.parsing.text import parse_register as _pr
+
+                mm = conn.builder._mem_mgr
+                free = [f"R{i}" for i in range(16) if not mm.is_register_active(_pr(f"R{i}"))]
+                kw["loop_register"] = free[int(explicit.split(":")[1]) % len(free)] if free else "R0"
             elif explicit:
                 kw["loop_register"] = explicit
             if style == "ctx":
@@ -449,6 +456,10 @@ class _Gen:
 
     def d(self, strat):
         return self.draw(strat)
+
+    def _empty(self) -> bool:
+        """a control-flow construct whose body does nothing (an empty with-block / callback)"""
+        return self.o.get("allow_empty_body", True) and self.chance(1, 8)
 
     def pick(self, seq):
         return self.d(st.sampled_from(list(seq)))
@@ -605,9 +616,9 @@ class _Gen:
             return []
         style, c, x, y = cnd
         inner = self._inner(scope)
-        body = self.block(inner, depth + 1)
+        body = [] if self._empty() else self.block(inner, depth + 1)
         body += self._close_qubits(inner)
-        if not body:
+        if not body and not self.o.get("allow_empty_body", True):
             return []
         return [["if", style, c, x, y, body]]
 
@@ -641,14 +652,15 @@ class _Gen:
         inner["loop_hi"][lid] = hi  # loop values are non-negative and < hi (array indexing only if it fits)
         if style == "body":
             inner["loopvars_fut"].append(lid)
-        body = self.block(inner, depth + 1)
+        body = [] if self._empty() else self.block(inner, depth + 1)
         body += self._close_qubits(inner)
-        if not body:
+        if not body and not self.o.get("allow_empty_body", True):
             return []
         explicit = None
         if self.o.get("explicit_loop_register", True) and self.chance(1, 4):
             # a named register only for outermost loops (nested loops must not share one); "lowest-free" anywhere
-            explicit = self.pick(["lowest-free", "lowest-free", "C9", "R12"]) if depth == 0 else "lowest-free"
+            k_free = "free:" + str(self.d(st.integers(0, 15)))
+            explicit = self.pick(["lowest-free", "lowest-free", "C9", "R12", k_free, k_free]) if depth == 0 else self.pick(["lowest-free", k_free])
         out = ["loop", style, lid, start, stop, step, body]
         if explicit:
             out.append(explicit)
@@ -670,9 +682,9 @@ class _Gen:
             inner["fvals"].append(lid)
         if wi:
             inner["loop_hi"][lid] = self.arrays[aid]["len"]
-        body = self.block(inner, depth + 1)
+        body = [] if self._empty() else self.block(inner, depth + 1)
         body += self._close_qubits(inner)
-        if not body:
+        if not body and not self.o.get("allow_empty_body", True):
             return []
         return [["foreach", lid, aid, wi, body]]
 
